@@ -39,6 +39,9 @@ THEOREMS = [
     "Config.composite_fallback", "Config.compositeOrder_spec", "Config.makeHtml_spec", "Config.sourceTemplate_spec",
     "Config.finalSourcepath_spec", "Config.sidebarOk_spec",
     "Config.cluster_not_already_on", "Config.default_section_leaks", "Config.sectionItems_spec",
+    # follow-up to ae278e0 (value check of ValidatorParser) and 67194dc (TOML boolean text)
+    "Config.bad_value_refused", "Config.mergeFile_no_traceback", "Config.not_bad_of_convert_ok", "Config.mergeFile_ok",
+    "Config.bad_count_old_counterexample", "Config.toml_bool_text_old_counterexample",
 ]
 PARTIAL: dict = {}     # every property statement is at full strength for the code at /repo HEAD; `…_old_…` are about earlier code
 RULE = ("(a) exhaustive: every string of length <=3 (quick) / <=4 (thorough) over {a, space, \", ', \\, #, ;, =, %, [, ], newline, "
@@ -97,8 +100,8 @@ ASSUMPTIONS = [
     "str() of floats, dates, nested arrays and tables is `unmodelled`; csv.reader is transcribed for one-line section names",
     "parse_path / findClassFromDottedName / parse_privacy_tuple (the Options converters) are not modelled: they receive the same "
     "text from a file and from the command line (file_eq_cli) and are compared as black boxes through Options equality",
-    "`[DEFAULT]` entries are handed to every INI section by configparser (modelled: sectionItems); INI keys are lower-cased by "
-    "configparser before pydoctor sees them (the model receives them as configparser returns them)",
+    "`[DEFAULT]` entries are handed to every INI section by configparser (modelled: sectionItems); INI keys reach the model as "
+    "configparser returns them (case kept since commit c9fb39f)",
     "abbreviated long options and clustered short options (--proj, -vv) are not seen by configargparse's "
     "already_on_command_line; the model covers exact option strings; abbreviations are probed with the direct oracle only",
 ]
@@ -801,7 +804,7 @@ PRIV = ["PUBLIC:a.b", "hidden:x*", "PRIVATE:m.[ab]", "HIDDEN:a:b", "bad", "PUBLI
 CLASSES = {"--system-class": ["pydoctor.model.System", "no.such.Class", "pydoctor.model.Class"],
            "--html-writer": ["pydoctor.templatewriter.TemplateWriter", "no.such.Writer", "pydoctor.model.System"]}
 FLAGVALS = ["true", "false", "yes", "no", "on", "off", "1", "0", "True", "FALSE", "maybe", "2"]
-COUNTVALS = ["0", "1", "2", "3", "true", "no", "-1", "+2", " 2"]
+COUNTVALS = ["0", "1", "2", "3", "abc", "1.5", "true", "no", "-1", "+2", " 2"]
 TRUE_WORDS = ("true", "yes", "on", "1")
 FALSE_WORDS = ("false", "no", "off", "0")
 
@@ -1100,22 +1103,21 @@ def stream_options(ctx: Ctx, sc: Scratch) -> None:
     # -- unknown keys: warned once each, not applied, no abort
     free = [t for t in table if t["kind"] == "store" and not t["choices"] and t["type"] is None and t["flags"][0] not in CLASSES]
     for fname, header, fmt in FILES:
-        # deterministic near misses of real options: `_` for `-` (every file format), another case (TOML keys are case
-        # sensitive; configparser lower-cases INI keys, so there the other case IS the option), then random other keys
+        # deterministic near misses of real options: `_` for `-` and another case, in every file format; then random other keys
         near: List[Tuple[str, str]] = []
         for o in table:
             if "-" in o["key"] and o["flags"][0] in ("--project-name", "--html-output", "--make-html", "--project-base-dir",
                                                      "--intersphinx-cache-path", "--warnings-as-errors", "--html-viewsource-base"):
                 near.append((o["key"].replace("-", "_"), "true" if o["kind"] == "flag" else "zzz"))
                 near.append((o["key"].replace("-", "_", 1) if o["key"].count("-") > 1 else o["key"].replace("-", "__"), "true" if o["kind"] == "flag" else "zzz"))
-                if fmt == "toml":
-                    near.append((o["key"].title(), "true" if o["kind"] == "flag" else "zzz"))
-                    near.append((o["key"].upper(), "true" if o["kind"] == "flag" else "zzz"))
+                # another case: unknown in every format since commit c9fb39f (configparser no longer lower-cases INI keys)
+                near.append((o["key"].title(), "true" if o["kind"] == "flag" else "zzz"))
+                near.append((o["key"].upper(), "true" if o["kind"] == "flag" else "zzz"))
         near = [(k, v) for k, v in dict(near).items() if k not in {kk for t in table for kk in t["keys"]}]
         cases: List[Tuple[str, str]] = near + [("", "zzz")] * (6 if ctx.quick else 40)
         for rep, (uk, ukval) in enumerate(cases):
             if not uk:
-                uk = ctx.rng.choice(["nosuch", "project_name", "projectname", "Project-Name" if fmt == "toml" else "no-such-opt", "verbos", "html-outputs", "-project-name", "x.y"]
+                uk = ctx.rng.choice(["nosuch", "project_name", "projectname", "Project-Name", "no-such-opt", "verbos", "html-outputs", "-project-name", "x.y"]
                                     + ([] if fmt == "toml" else ["a.b", "a b", "'q", "k[0]", ".", "{k}", "1", "a..b"]))
             else:
                 ctx.count("option:unknown-key:near-miss(_ or case)")
@@ -1387,7 +1389,7 @@ def impl_line(model_out: str, r: Dict[str, Any], table: List[Dict[str, Any]], ct
     if r["argv"] is None:
         # configargparse stopped before handing over to argparse
         msg = r.get("msg", "")
-        kind = ("badBool" if "Unexpected value for" in msg else "listToStore" if "can't be set to a list" in msg else
+        kind = ("badValue" if "Invalid value for config option" in msg else "badBool" if "Unexpected value for" in msg else "listToStore" if "can't be set to a list" in msg else
                 "assertion" if r.get("cls") == "AssertionError" else "intValueError" if r.get("cls") == "ValueError" else "?" + short(r)[:60])
         return f"error:{kind} | {warn}"
     head = sect("ok argv", [enc(a) for a in canon_args(table, r["argv"])]) + " | " + warn
